@@ -22,7 +22,10 @@
 //                         cases run in their own forked child so that a crash is reported with exact tags.
 #include <gdstk/gdstk.hpp>
 
+#include <setjmp.h>
+
 #include <map>
+#include <set>
 
 #include "dump.hpp"
 #include "vf.hpp"
@@ -547,10 +550,7 @@ struct RefOps {
 };
 
 // run f in a forked child; "" if it returned normally, else what happened (+ its stderr in err)
-static void fast_segv(int sig) { _exit(100 + sig); }
-// fast: the child replaces the sanitizer's SIGSEGV/SIGBUS reporter by an immediate _exit (a symbolised
-// report costs ~0.3 s; it is kept for the first crash of each class in each worker)
-static std::string isolated(const std::function<void()>& f, std::string& err, bool fast) {
+static std::string isolated(const std::function<void()>& f, std::string& err) {
     std::string efile = R->scratch + fmt("/iso.%d.err", (int)getpid());
     R->flush_counters();
     fflush(NULL);
@@ -561,7 +561,6 @@ static std::string isolated(const std::function<void()>& f, std::string& err, bo
         if (efd >= 0) { dup2(efd, 2); close(efd); }
         R->counters.clear();
         alarm(60);
-        if (fast) { signal(SIGSEGV, fast_segv); signal(SIGBUS, fast_segv); }
         f();
         R->flush_counters();
         fflush(NULL);
@@ -583,8 +582,6 @@ static std::string isolated(const std::function<void()>& f, std::string& err, bo
     if (q != std::string::npos) err = err.substr(q);
     if (err.size() > 1200) err.resize(1200);
     if (WIFEXITED(status) && WEXITSTATUS(status) == 0) return "";
-    if (WIFEXITED(status) && (WEXITSTATUS(status) == 100 + SIGSEGV || WEXITSTATUS(status) == 100 + SIGBUS))
-        return fmt("invalid memory access (signal %d; sanitizer report suppressed for speed, see the first violation of this class or replay this case)", WEXITSTATUS(status) - 100);
     if (WIFSIGNALED(status)) return WTERMSIG(status) == SIGALRM ? "hang (no return within 60 s)" : fmt("killed by signal %d", WTERMSIG(status));
     size_t a = err.find("AddressSanitizer: ");
     if (a != std::string::npos) { size_t e = err.find_first_of(" \n", a + 18); return "AddressSanitizer " + err.substr(a + 18, e - (a + 18)); }
@@ -684,50 +681,110 @@ static void apply_body(int ri, int prefill) {
             }
         }
     }
-    // release everything (ASan: double free / use after free if anything is shared)
-    for (uint64_t i = prefill; i < result.count && i < prefill + 100000; i++) Ops::destroy(result[i]);
-    result.clear();
-    Ops::destroy(e);
+    // release everything (ASan: double free / use after free if anything is shared that the pointer walk
+    // above does not know about); after a reported failure the objects are leaked instead, so that one
+    // defect does not take the worker down with a secondary double free
+    if (ok) {
+        for (uint64_t i = prefill; i < result.count; i++) Ops::destroy(result[i]);
+        result.clear();
+        Ops::destroy(e);
+    }
     Ops::destroy(e0);
 }
 
-template <class Ops>
-static void apply_case(int ri, int prefill) {
+struct ApplyFn { const char* name; void (*body)(int, int); };
+static const ApplyFn APPLY[6] = {{PolyOps::name(), apply_body<PolyOps>}, {FlexOps::name(), apply_body<FlexOps>}, {RobustOps::name(), apply_body<RobustOps>},
+                                 {LabelOps::name(), apply_body<LabelOps>}, {RefOps<false>::name(), apply_body<RefOps<false>>}, {RefOps<true>::name(), apply_body<RefOps<true>>}};
+static void report_crash(int ri, const char* el, int prefill, const std::string& what, const std::string& err, bool emit = true) {
     const RepSpec& s = ALPHA[ri];
     SpecInfo inf = info_of(s);
-    if (!inf.zero_count) { apply_body<Ops>(ri, prefill); return; }
-    // zero-count lattice: isolate, so that a crash is attributed to exactly this (element, repetition)
-    std::string err;
-    std::string cls = std::string("crash-") + Ops::name();
-    bool fast = (getenv("C11_FAST") || !R->replaying()) && R->viol_emitted["apply/" + cls] >= 1;
-    std::string what = isolated([&] { apply_body<Ops>(ri, prefill); }, err, fast);
-    if (what.empty()) return;
     R->count("cases");
     R->count("nontrivial");
     R->count("apply_cases_zero_count");
+    R->count("apply_crashes_zero_count");
     JFields tags = base_tags(s, inf);
-    tags.push_back({"element", jstr(Ops::name())});
+    tags.push_back({"element", jstr(el)});
     tags.push_back({"prefilled", jbool(prefill)});
-    R->violation("apply", cls, tags, jobj({{"element", jstr(Ops::name())}, {"repetition", spec_json(s)}, {"denoted_set", jstr("empty (zero count)")}, {"result_array_prefilled_with_the_element_itself", jbool(prefill)}}),
-                 std::string(Ops::name()) + "::apply_repetition did not return: " + what + "\n" + err, fmt("sub=apply rep=%d el=%s prefill=%d", ri, Ops::name(), prefill));
+    if (!emit) {  // same tag values already reported from this worker: count only
+        R->count("violations_total");
+        R->count(std::string("viol:apply/crash-") + el);
+        return;
+    }
+    R->violation("apply", std::string("crash-") + el, tags, jobj({{"element", jstr(el)}, {"repetition", spec_json(s)}, {"denoted_set", jstr("empty (zero count)")}, {"result_array_prefilled_with_the_element_itself", jbool(prefill)}}),
+                 std::string(el) + "::apply_repetition did not return: " + what + (err.empty() ? "" : "\n" + err), fmt("sub=apply rep=%d el=%s prefill=%d", ri, el, prefill));
+}
+// Zero-count lattices are suspected to crash (DESIGN.md 0.1 D15).  So that every (element, repetition,
+// prefill) case is attributed exactly, they never run in the worker itself:
+//  * the first crash of each element kind in a worker (and every replay) runs alone in a forked child
+//    under the sanitizer's own reporter, which gives the symbolised stack (~0.3 s);
+//  * the others of one repetition share one forked child in which SIGSEGV/SIGBUS is caught and left
+//    by siglongjmp, the crash is recorded with its tags and the next case runs (the child is thrown
+//    away afterwards; an ASan abort or a hang of the child is reported as class "crash-group").
+static sigjmp_buf JB;
+static volatile sig_atomic_t JB_ARMED = 0;
+static void segv_jump(int sig) {
+    if (JB_ARMED) siglongjmp(JB, sig);
+    _exit(100 + sig);
+}
+static void grouped_child(int ri, const std::vector<std::pair<int, int>>& cases, const std::vector<char>& emit_ok) {
+    signal(SIGSEGV, segv_jump);
+    signal(SIGBUS, segv_jump);
+    volatile bool any = false;
+    for (volatile size_t i = 0; i < cases.size(); i++) {
+        JB_ARMED = 1;
+        int sig = sigsetjmp(JB, 1);
+        if (sig == 0) {
+            APPLY[cases[i].first].body(ri, cases[i].second);
+            JB_ARMED = 0;
+        } else {
+            JB_ARMED = 0;
+            any = true;
+            report_crash(ri, APPLY[cases[i].first].name, cases[i].second,
+                         fmt("invalid memory access (signal %d) inside apply_repetition (caught and left by siglongjmp so that the remaining cases still run; replay this case for the sanitizer report)", sig), "", emit_ok[i]);
+        }
+    }
+    if (any) { R->flush_counters(); fflush(NULL); _exit(3); }
 }
 static void apply_all(int ri, const std::string& only_el, int only_prefill) {
-    for (int prefill = 0; prefill < 2; prefill++) {
-        if (only_prefill >= 0 && prefill != only_prefill) continue;
-        auto want = [&](const char* n) { return only_el.empty() || only_el == n; };
-        if (want(PolyOps::name())) apply_case<PolyOps>(ri, prefill);
-        if (want(FlexOps::name())) apply_case<FlexOps>(ri, prefill);
-        if (want(RobustOps::name())) apply_case<RobustOps>(ri, prefill);
-        if (want(LabelOps::name())) apply_case<LabelOps>(ri, prefill);
-        if (want(RefOps<false>::name())) apply_case<RefOps<false>>(ri, prefill);
-        if (want(RefOps<true>::name())) apply_case<RefOps<true>>(ri, prefill);
+    SpecInfo inf = info_of(ALPHA[ri]);
+    std::vector<std::pair<int, int>> cases, grouped;
+    for (int prefill = 0; prefill < 2; prefill++)
+        for (int k = 0; k < 6; k++)
+            if ((only_prefill < 0 || prefill == only_prefill) && (only_el.empty() || only_el == APPLY[k].name)) cases.push_back({k, prefill});
+    if (!inf.zero_count) {
+        for (auto& c : cases) APPLY[c.first].body(ri, c.second);
+        return;
+    }
+    // per worker process: element kinds whose first zero-count case has run alone under the sanitizer's
+    // reporter, and tag combinations already reported from a grouped child
+    static std::set<std::string> slow_done, tags_seen;
+    for (auto& c : cases) {
+        if (!R->replaying() && slow_done.count(APPLY[c.first].name)) { grouped.push_back(c); continue; }
+        slow_done.insert(APPLY[c.first].name);
+        std::string err;
+        std::string what = isolated([&] { APPLY[c.first].body(ri, c.second); }, err);
+        if (!what.empty()) report_crash(ri, APPLY[c.first].name, c.second, what, err);
+    }
+    if (grouped.empty()) return;
+    std::vector<char> emit_ok;
+    for (auto& c : grouped) {
+        std::string k = fmt("%d/%d/%d/%d/%d", ALPHA[ri].kind, (int)inf.cols_zero, (int)inf.rows_zero, c.first, c.second);
+        emit_ok.push_back(tags_seen.insert(k).second);
+    }
+    std::string err;
+    std::string what = isolated([&] { grouped_child(ri, grouped, emit_ok); }, err);
+    if (!what.empty() && what != "exit status 3") {
+        JFields tags = base_tags(ALPHA[ri], inf);
+        tags.push_back({"element", jstr("several")});
+        R->violation("apply", "crash-group", tags, jobj({{"repetition", spec_json(ALPHA[ri])}, {"cases", jstr("apply_repetition on the remaining element kinds of this repetition, run in one child")}}),
+                     "the child running several zero-count apply_repetition cases ended abnormally: " + what + "\n" + err, fmt("sub=apply rep=%d", ri));
     }
 }
 
 // A general Bezier subpath keeps its control points in a heap array that RobustPath::copy_from copies
 // by memcpy of the SubPath.  No gdstk function writes to or frees that array, so the sharing cannot be
 // observed through the API; it is recorded as a note, not judged.
-static void note_bezier_ctrl_sharing() {
+static void note_bezier_ctrl_sharing_body() {
     RobustPath* e = RobustOps::build();
     Array<Vec2> ctrl = {};
     for (Vec2 v : {Vec2{9, 5}, Vec2{10, 6}, Vec2{11, 5}, Vec2{12, 7}, Vec2{13, 5}}) ctrl.append(v);
@@ -745,6 +802,11 @@ static void note_bezier_ctrl_sharing() {
     for (uint64_t i = 0; i < res.count; i++) RobustOps::destroy(res[i]);
     res.clear();
     RobustOps::destroy(e);
+}
+static void note_bezier_ctrl_sharing() {  // in a child: a defect in copy_from must not take the orchestrating process down
+    std::string err;
+    std::string what = isolated(note_bezier_ctrl_sharing_body, err);
+    if (!what.empty()) R->note("informational Bezier control-point probe ended abnormally (" + what + "); the same defect is judged by the 'apply' sub-check");
 }
 
 // ------------------------------------------------------------------------------------------ main
